@@ -36,6 +36,7 @@ MAP = [
     ("V:opt:test_acceptance:", "optimiser_contract"),
     ("V:opt:energy_surface:", "optimiser_contract"),
     ("V:opt:build:", "optimiser_contract"),
+    ("P:serde-plain:", "serde_roundtrip"),
 ]
 
 
